@@ -2,12 +2,13 @@ package main
 
 // Structural facts about the scratch-pool protocol, extracted from the
 // repository's current source with go/parser + go/ast (mode `facts`).  The
-// Lean model (Model/Pool.lean) assumes exactly these shapes; checks/C17.py
-// compares them with its expectations on every run.
+// semantic facts (interprocedural effect sets, Put-count per return path,
+// operations on Circuit.garblePool, allocation sites of a new scratch) are in
+// effects.go; this file holds the parsing helpers and the textual renderings
+// that checks/C17.py uses as ADVISORY facts only.
 
 import (
 	"bytes"
-	"fmt"
 	"go/ast"
 	"go/parser"
 	"go/printer"
@@ -27,6 +28,10 @@ func (fc *factsCtx) render(n ast.Node) string {
 	printer.Fprint(&b, fc.fset, n)
 	s := strings.Join(strings.Fields(b.String()), " ")
 	return s
+}
+
+func parseFile(fc *factsCtx, p string) (*ast.File, error) {
+	return parser.ParseFile(fc.fset, p, nil, 0)
 }
 
 func recvTypeName(fd *ast.FuncDecl) string {
@@ -109,257 +114,6 @@ func (fc *factsCtx) structFields(typ string) []string {
 	return res
 }
 
-// rootIdent strips index / selector / deref / slice / paren and returns the
-// identifier an lvalue or argument is rooted at.
-func rootIdent(e ast.Expr) *ast.Ident {
-	for {
-		switch x := e.(type) {
-		case *ast.Ident:
-			return x
-		case *ast.SelectorExpr:
-			e = x.X
-		case *ast.IndexExpr:
-			e = x.X
-		case *ast.SliceExpr:
-			e = x.X
-		case *ast.StarExpr:
-			e = x.X
-		case *ast.ParenExpr:
-			e = x.X
-		case *ast.UnaryExpr:
-			if x.Op == token.AND {
-				e = x.X
-			} else {
-				return nil
-			}
-		default:
-			return nil
-		}
-	}
-}
-
-// access classifies how a function touches state that is not its own locals.
-type access struct {
-	fc      *factsCtx
-	fd      *ast.FuncDecl
-	recv    *ast.Object
-	params  map[*ast.Object]string
-	aliases map[*ast.Object]string // local -> "shared" (pointer into receiver) or "scratch.<f>"
-	out     map[string]bool
-	callees map[string]bool
-}
-
-func (a *access) kindOf(id *ast.Ident) string {
-	if id == nil {
-		return ""
-	}
-	if id.Obj == nil {
-		// declared in another file of the package, or a builtin / package name
-		if id.Name == "nil" || id.Name == "_" {
-			return ""
-		}
-		return "global"
-	}
-	if id.Obj == a.recv {
-		return "recv"
-	}
-	if _, ok := a.params[id.Obj]; ok {
-		return "param"
-	}
-	if k, ok := a.aliases[id.Obj]; ok {
-		return k
-	}
-	if id.Obj.Kind == ast.Var {
-		if _, ok := id.Obj.Decl.(*ast.ValueSpec); ok {
-			// package-level var of this file?
-			for _, f := range a.fc.files {
-				if f.Scope != nil && f.Scope.Lookup(id.Name) == id.Obj {
-					return "global"
-				}
-			}
-		}
-	}
-	return ""
-}
-
-func (a *access) noteWrite(lhs ast.Expr) {
-	id := rootIdent(lhs)
-	if id == nil {
-		return
-	}
-	// writing the variable itself (not through it) is a local write unless
-	// it is a global
-	_, plain := lhs.(*ast.Ident)
-	switch k := a.kindOf(id); {
-	case k == "recv":
-		a.out["W-receiver:"+a.fc.render(lhs)] = true
-	case k == "shared":
-		if !plain {
-			a.out["W-shared-alias:"+a.fc.render(lhs)] = true
-		}
-	case k == "param":
-		if !plain {
-			a.out["W-param:"+id.Name] = true
-		}
-	case strings.HasPrefix(k, "scratch."):
-		if !plain {
-			a.out["W-"+k] = true
-		}
-	case k == "global":
-		a.out["W-global:"+a.fc.render(lhs)] = true
-	}
-}
-
-func (a *access) noteDefine(lhs, rhs ast.Expr) {
-	id, ok := lhs.(*ast.Ident)
-	if !ok || id.Obj == nil {
-		return
-	}
-	// pointer into receiver-owned memory
-	if u, ok := rhs.(*ast.UnaryExpr); ok && u.Op == token.AND {
-		if r := rootIdent(u.X); r != nil {
-			switch a.kindOf(r) {
-			case "recv", "shared":
-				a.aliases[id.Obj] = "shared"
-				a.out["alias:"+id.Name+"="+a.fc.render(rhs)] = true
-			}
-		}
-		return
-	}
-	// local name for a scratch buffer: x := scratch.f
-	if s, ok := rhs.(*ast.SelectorExpr); ok {
-		if r, ok := s.X.(*ast.Ident); ok && r.Name == "scratch" {
-			a.aliases[id.Obj] = "scratch." + s.Sel.Name
-			return
-		}
-	}
-	// slice / map / pointer typed receiver fields would alias too
-	if r := rootIdent(rhs); r != nil && a.kindOf(r) == "recv" {
-		switch rhs.(type) {
-		case *ast.SelectorExpr, *ast.SliceExpr:
-			a.aliases[id.Obj] = "shared"
-			a.out["alias:"+id.Name+"="+a.fc.render(rhs)] = true
-		}
-	}
-}
-
-func (a *access) walk(n ast.Node) {
-	ast.Inspect(n, func(n ast.Node) bool {
-		switch x := n.(type) {
-		case *ast.AssignStmt:
-			for i, l := range x.Lhs {
-				if x.Tok == token.DEFINE {
-					if i < len(x.Rhs) && len(x.Lhs) == len(x.Rhs) {
-						a.noteDefine(l, x.Rhs[i])
-					}
-				} else {
-					a.noteWrite(l)
-					if i < len(x.Rhs) && len(x.Lhs) == len(x.Rhs) {
-						if _, ok := l.(*ast.Ident); ok {
-							a.noteDefine(l, x.Rhs[i])
-						}
-					}
-				}
-			}
-		case *ast.IncDecStmt:
-			a.noteWrite(x.X)
-		case *ast.RangeStmt:
-			if x.Tok == token.ASSIGN {
-				if x.Key != nil {
-					a.noteWrite(x.Key)
-				}
-				if x.Value != nil {
-					a.noteWrite(x.Value)
-				}
-			}
-		case *ast.UnaryExpr:
-			if x.Op == token.AND {
-				if r := rootIdent(x.X); r != nil && a.kindOf(r) == "recv" {
-					a.out["addr-of-receiver:"+a.fc.render(x)] = true
-				}
-			}
-		case *ast.GoStmt:
-			a.out["go-statement"] = true
-		case *ast.DeferStmt:
-			a.out["defer:"+a.fc.render(x.Call.Fun)] = true
-		case *ast.CallExpr:
-			fun := a.fc.render(x.Fun)
-			switch f := x.Fun.(type) {
-			case *ast.Ident:
-				if f.Name == "copy" && len(x.Args) > 0 {
-					a.noteWrite(&ast.IndexExpr{X: x.Args[0], Index: &ast.Ident{Name: "_"}})
-				}
-				if f.Obj == nil || f.Obj.Kind == ast.Fun {
-					switch f.Name {
-					case "len", "cap", "make", "new", "copy", "append", "panic", "byte", "int", "uint64", "uint32", "uint", "string":
-					default:
-						a.callees[f.Name] = true
-					}
-				}
-			case *ast.SelectorExpr:
-				if r := rootIdent(f.X); r != nil {
-					switch a.kindOf(r) {
-					case "recv":
-						a.out["call-on-receiver:"+fun] = true
-						a.callees[f.Sel.Name] = true
-					case "shared":
-						a.out["call-on-shared-alias:"+fun] = true
-						a.callees[f.Sel.Name] = true
-					}
-				}
-			}
-			for _, arg := range x.Args {
-				if r := rootIdent(arg); r != nil {
-					k := a.kindOf(r)
-					if k == "recv" || k == "shared" {
-						if fun == "len" {
-							continue
-						}
-						a.out["arg-shared:"+fun+"("+a.fc.render(arg)+")"] = true
-					}
-				}
-			}
-		}
-		return true
-	})
-}
-
-func (fc *factsCtx) accessFacts(recv, name string) map[string]any {
-	fd := fc.findFunc(recv, name)
-	if fd == nil || fd.Body == nil {
-		return map[string]any{"missing": true}
-	}
-	a := &access{fc: fc, fd: fd, params: map[*ast.Object]string{}, aliases: map[*ast.Object]string{},
-		out: map[string]bool{}, callees: map[string]bool{}}
-	if fd.Recv != nil && len(fd.Recv.List) > 0 && len(fd.Recv.List[0].Names) > 0 {
-		a.recv = fd.Recv.List[0].Names[0].Obj
-	}
-	for _, p := range fd.Type.Params.List {
-		for _, n := range p.Names {
-			a.params[n.Obj] = n.Name
-		}
-	}
-	if fd.Type.Results != nil {
-		for _, p := range fd.Type.Results.List {
-			for _, n := range p.Names {
-				// named results are locals
-				_ = n
-			}
-		}
-	}
-	a.walk(fd.Body)
-	var acc, cal []string
-	for k := range a.out {
-		acc = append(acc, k)
-	}
-	for k := range a.callees {
-		cal = append(cal, k)
-	}
-	sort.Strings(acc)
-	sort.Strings(cal)
-	return map[string]any{"access": acc, "callees": cal}
-}
-
 // returnsOf lists the return statements of a function body (not descending
 // into function literals) together with the statement that precedes each one
 // in its block.
@@ -415,67 +169,6 @@ func returnsOf(body *ast.BlockStmt) []retInfo {
 		}
 	}
 	visitBlock(body.List)
-	return res
-}
-
-func countCalls(n ast.Node, fc *factsCtx, fun string) int {
-	c := 0
-	ast.Inspect(n, func(n ast.Node) bool {
-		if ce, ok := n.(*ast.CallExpr); ok && fc.render(ce.Fun) == fun {
-			c++
-		}
-		return true
-	})
-	return c
-}
-
-func (fc *factsCtx) garbleFacts() map[string]any {
-	fd := fc.findFunc("Circuit", "Garble")
-	if fd == nil {
-		return map[string]any{"missing": true}
-	}
-	res := map[string]any{}
-	var stmts []string
-	for i, s := range fd.Body.List {
-		if i < 2 {
-			stmts = append(stmts, fc.render(s))
-		}
-	}
-	res["first_statements"] = stmts
-	res["get_calls"] = countCalls(fd.Body, fc, "pool.Get")
-	res["put_calls"] = countCalls(fd.Body, fc, "pool.Put")
-	rets := returnsOf(fd.Body)
-	nerr, nerrPut, nok := 0, 0, 0
-	var okRet string
-	for _, r := range rets {
-		isErr := len(r.ret.Results) == 2 && fc.render(r.ret.Results[0]) == "nil"
-		if isErr {
-			nerr++
-			if r.prev != nil && fc.render(r.prev) == "pool.Put(scratch)" {
-				nerrPut++
-			}
-		} else {
-			nok++
-			okRet = fc.render(r.ret)
-		}
-	}
-	res["error_returns"] = nerr
-	res["error_returns_preceded_by_put"] = nerrPut
-	res["success_returns"] = nok
-	res["success_return"] = okRet
-	var al []string
-	ast.Inspect(fd.Body, func(n ast.Node) bool {
-		if as, ok := n.(*ast.AssignStmt); ok && as.Tok == token.DEFINE && len(as.Rhs) == 1 {
-			if s, ok := as.Rhs[0].(*ast.SelectorExpr); ok {
-				if r, ok := s.X.(*ast.Ident); ok && r.Name == "scratch" {
-					al = append(al, fc.render(as))
-				}
-			}
-		}
-		return true
-	})
-	sort.Strings(al)
-	res["scratch_aliases"] = al
 	return res
 }
 
@@ -559,34 +252,31 @@ func (fc *factsCtx) poolFacts() map[string]any {
 }
 
 func runFacts(repo string) (map[string]any, error) {
-	fc := &factsCtx{fset: token.NewFileSet(), files: map[string]*ast.File{}}
-	for _, f := range []string{"garble.go", "circuit.go", "eval.go", "computer.go"} {
-		p := filepath.Join(repo, "circuit", f)
-		af, err := parser.ParseFile(fc.fset, p, nil, 0)
-		if err != nil {
-			return nil, fmt.Errorf("parse %s: %v", p, err)
-		}
-		fc.files[p] = af
+	px, err := loadPkg(filepath.Join(repo, "circuit"))
+	if err != nil {
+		return nil, err
 	}
+	fc := px.fc
 	res := map[string]any{}
-	res["Garble"] = fc.garbleFacts()
-	res["Release"] = fc.releaseFacts()
-	res["garbleScratchPool"] = fc.poolFacts()
+	eff := map[string]any{}
+	for _, fn := range [][2]string{{"Circuit", "Garble"}, {"Circuit", "Eval"}, {"Circuit", "Compute"},
+		{"Garbled", "Release"}} {
+		e, h := px.effectsOf(fn[0], fn[1])
+		eff[fn[0]+"."+fn[1]] = e
+		if fn[1] == "Garble" {
+			res["handle_literal"] = h
+		}
+	}
+	res["effects"] = eff
+	res["put_paths"] = px.putPathFacts()
+	res["release_shape"] = px.releaseShape()
+	res["garblePool_ops"] = px.poolFieldOps()
+	res["garblePool_type"] = fc.findStructField("Circuit", "garblePool")
+	res["new_scratch"] = px.newScratch()
+	// advisory (textual) facts
 	res["Garbled_fields"] = fc.structFields("Garbled")
 	res["garbledScratch_fields"] = fc.structFields("garbledScratch")
-	acc := map[string]any{}
-	for _, fn := range [][2]string{
-		{"Circuit", "Garble"}, {"Gate", "garbleInto"}, {"Circuit", "garbleScratchPool"},
-		{"Garbled", "Release"}, {"Circuit", "Eval"}, {"Circuit", "Compute"},
-		{"", "encrypt"}, {"", "decrypt"}, {"", "encryptHalf"}, {"", "makeK"}, {"", "makeKHalf"},
-		{"", "makeLabels"}, {"", "idx"}, {"", "idxUnary"},
-	} {
-		key := fn[1]
-		if fn[0] != "" {
-			key = fn[0] + "." + fn[1]
-		}
-		acc[key] = fc.accessFacts(fn[0], fn[1])
-	}
-	res["access"] = acc
+	res["Release_statements"] = fc.releaseFacts()
+	res["garbleScratchPool_text"] = fc.poolFacts()
 	return res, nil
 }
